@@ -89,3 +89,7 @@ impl OovProviderPlugin for SimpleOovPlugin {
         Ok(1)
     }
 }
+
+// verification hook: harness text lives outside the repository (see MANIFEST.hooks)
+#[cfg(any(kani, sudachi_verif))]
+include!(concat!(env!("SUDACHI_VERIF_DIR"), "/plugin__oov__simple_oov__mod.rs"));
